@@ -22,7 +22,7 @@ def space(tier, seed):
               ('call', 'max', F('a', 1), ('lit', 'x,y')), ('list', F('a', 1), ('tuple', F('a', 2), F('a', 1))), ('star', None), ('star', 'a'),
               ('alias', ('cat', F('a', 1), ('lit', 'y')), 'Tot', 'AS'), ('alias', F('a', 2), 'low_1', 'as'), ('tuple', F('a', 1), F('a', 2))]
     named = [('named', 'a', n1, 'attr'), ('named', 'a', n2, 'dq'), ('named', 'a', n3, 'sq')]
-    joined = [F('b', 1), ('star', 'b'), ('bNR',)]
+    joined = [F('b', 1), F('b', 3), F('b', 5), ('star', 'b'), ('bNR',)]     # b3: inside the narrow B? no - beyond it; inside the wide B; b5: beyond A, inside wide B
     joined_named = [('named', 'b', bn2, 'attr')]
     maxn = 3 if tier == 'thorough' else 2
     cases = []   # (q, has_header, has_join)
@@ -55,7 +55,8 @@ def space(tier, seed):
         cases.append(({'kind': 'update', 'assign': [(F('a', 2), F('b', 2))], 'where': None, 'join': {'type': 'LEFT JOIN', 'keys': [(F('a', 1), F('b', 1))]}}, hdr, True))
     tables = [[[k, m, 'c'], [m, k, 'd']], [[k, k, k]], [[m, 'w', 'c'], [m, 'w', 'c'], [k, 'v', 'e']]]
     B = [[k, 'p'], [m, 'q']]
-    return dict(cases=cases, tables=tables, B=B, names=[n1, n2, n3], bnames=[bn1, bn2])
+    Bwide = [[k, 'p', 'w3', 'w4', 'w5'], [m, 'q', 'x3', 'x4', 'x5']]
+    return dict(cases=cases, tables=tables, B=B, names=[n1, n2, n3], bnames=[bn1, bn2], Bwide=Bwide, bnames_wide=[bn1, bn2, 'jc3', 'jc4', 'jc5'])
 
 
 def diagnose(q, hdr, exp_header, got):
@@ -99,9 +100,8 @@ def run_shard(sh):
     try:
         for q, hdr, join in sp_['cases'][sh['lo']:sh['hi']]:
             a_names = sp_['names'] if hdr else None
-            b_names = sp_['bnames'] if (hdr and join) else None
-            B = sp_['B'] if join else None
-            for A in (sp_['tables'] if route == 'table' else sp_['tables'][:1]):
+            for A, B, b_names in ([(A_, (sp_['B'] if join else None), (sp_['bnames'] if (hdr and join) else None)) for A_ in (sp_['tables'] if route == 'table' else sp_['tables'][:1])]
+                                  + ([(sp_['tables'][0], sp_['Bwide'], (sp_['bnames_wide'] if hdr else None))] if join else [])):
                 exp = refql.evaluate(q, A, B, a_names, b_names)
                 res.evaluations += 1
                 res.traces += 1
